@@ -1104,6 +1104,38 @@ class Interp:
         return abs(args[0])
       if vec(args[0]) is not None:
         return Arr(abs(x) for x in vec(args[0]))
+    if short in ('less', 'less_equal', 'greater', 'greater_equal', 'equal',
+                 'not_equal') and len(args) == 2 and not kwargs:
+      op = {'less': ast.Lt(), 'less_equal': ast.LtE(), 'greater': ast.Gt(),
+            'greater_equal': ast.GtE(), 'equal': ast.Eq(),
+            'not_equal': ast.NotEq()}[short]
+      return self.compare1(op, args[0], args[1], node)
+    if short == 'reciprocal' and len(args) == 1 and \
+            isinstance(args[0], Arr):
+      where, out = kwargs.get('where'), kwargs.get('out')
+      src = args[0]
+      if where is not None and not isinstance(out, Arr):
+        raise Undecided('np.reciprocal(where=...) without out: '
+                        'uninitialised entries')
+      wv = where.xs if isinstance(where, Arr) else [1] * len(src)
+      res = []
+      for k_, x in enumerate(src.xs):
+        if wv[k_]:
+          if x == 0:
+            raise Undecided('division by zero')
+          res.append(1 / Fraction(x))
+        else:
+          res.append(out.xs[k_] if isinstance(out, Arr) else x)
+      if isinstance(out, Arr):
+        out.xs = res
+        return out
+      return Arr(res)
+    if short in ('putmask', 'place') and len(args) == 3 and \
+            isinstance(args[0], Arr) and isinstance(args[1], Arr) and \
+            len(args[0]) == len(args[1]) and _is_num(args[2]):
+      args[0].xs = [args[2] if m else x
+                    for x, m in zip(args[0].xs, args[1].xs)]
+      return None
     if short == 'copyto' and len(args) == 2 and isinstance(args[0], Arr) \
             and not kwargs:
       src = args[1]
